@@ -268,7 +268,9 @@ def validations(F, S):
     for f in (ex or ()):
         if f[0] == "ev" and f[1] == "each" and f[2][0] == "ev" and f[2][1] == "passed":
             conds.append(f[2][2])
-    pal = any(c[0] == "<" and c[1][0] == "mem" and c[1][2] == "paletteIndex" and c[2] == ("size", ("mem", ("this",), "palettes")) for c in conds)
+    # (the palette count may have been named by a local first)
+    pal = any(c[0] == "<" and c[1][0] == "mem" and c[1][2] == "paletteIndex" and
+              (c[2] == ("size", ("mem", ("this",), "palettes")) or v.through_locals(c[2]) == ("size", ("mem", ("this",), "palettes"))) for c in conds)
     scan = any(c[0] == "==" and "scanLineByteWidth" in repr(c) and "width" in repr(c) and "-4" in repr(c) and "3" in repr(c) for c in conds)
     inst = A + "::ValidateImageMetadata#strength"
     req = "for every image: paletteIndex < palettes.size() and scanLineByteWidth == (width + 3) & ~3"
